@@ -1332,6 +1332,14 @@ fn gen_c08_keepalive(r: &mut Prng, _i: u64, _t: Tier) -> Plan {
         }
         k => p.faults.push(Fault { at, kind: FaultKind::Cut { from: k - 1, sink_err: false, src: 3, drop_inflight } }),
     }
+    // with keepalive on both sides, in half of the runs the link goes silent around an orderly
+    // end: the local handle is dropped, or the peer's Close arrives, and the other side is never
+    // heard of again (without keepalive nothing can tell a dead peer from a slow one)
+    if both && r.chance(1, 2) {
+        let at2 = (at + r.below(30) as u64).saturating_sub(15);
+        let kind = if r.chance(1, 2) { FaultKind::DropMux { ep: r.below(2) } } else { FaultKind::PeerClose { to: r.below(2) } };
+        p.faults.push(Fault { at: at2, kind });
+    }
     p.horizon_ms = 60_000;
     p
 }
@@ -1339,12 +1347,16 @@ fn x_c08_keepalive(r: &DuoRun, wm: &WireModel, ei: &EndInfo, o: &mut Outcome) {
     // the family's space (the minimiser must not leave it): silent cuts only, keepalive periods
     // far above the round trip of the link, a timeout not below the interval
     let lat = r.plan.link.latency_ms.max(1);
-    let in_space = r.plan.faults.iter().all(|f| matches!(f.kind, FaultKind::Cut { sink_err: false, src: 3, .. })) && r.plan.eps.iter().all(|e| e.keepalive_ms == [0, 0] || (e.keepalive_ms[0] >= 20 * lat && e.keepalive_ms[1] >= e.keepalive_ms[0]));
-    if !in_space {
+    let in_space = r.plan.faults.iter().all(|f| matches!(f.kind, FaultKind::Cut { sink_err: false, src: 3, .. } | FaultKind::DropMux { .. } | FaultKind::PeerClose { .. })) && r.plan.faults.iter().any(|f| matches!(f.kind, FaultKind::Cut { .. })) && r.plan.eps.iter().all(|e| e.keepalive_ms == [0, 0] || (e.keepalive_ms[0] >= 20 * lat && e.keepalive_ms[1] >= e.keepalive_ms[0]));
+    let orderly_end = r.plan.faults.iter().any(|f| !matches!(f.kind, FaultKind::Cut { .. }));
+    if !in_space || (orderly_end && r.plan.eps.iter().any(|e| e.keepalive_ms[0] == 0)) {
         o.violations.clear();
         return;
     }
     x_c08(r, wm, ei, o);
+    if orderly_end {
+        o.probe("silent-link-around-orderly-end", 1);
+    }
     if !ei.any_fault {
         return;
     }
@@ -1379,7 +1391,7 @@ pub fn c08() -> Check {
             fam("backlog", 100_000, 2_000_000, gen_c08_backlog, OracleCfg::default(), Some(x_c08), nt_c08, "the endpoint whose transport fails (sink error with a live or silent source, invalid frame, source error) runs no acceptor: its accept backlog (1-2 slots) is full and further Connect frames of the peer are in flight or buffered when the failure hits; its parked reader, get_datagram and open calls must still resolve and its task must return."),
             fam("keepalive-expiry", 40_000, 600_000, gen_c08_keepalive, OracleCfg::default(), Some(x_c08_keepalive), nt_c08, "the chaos workload with keepalive on at one or both endpoints (interval 200-1000 ms, timeout 1-2 intervals) on a link that goes silent at a seeded scheduling round: one or both directions swallow what is sent from then on, no operation of the transport fails. Every endpoint with keepalive on must end (its pings or the pongs to them are lost), and from then on the general clauses apply: its task returned, no call pending at quiescence, reads drain then end, writes fail. Non-trivial as in chaos."),
         ],
-        vec!["late-call-after-end", "end-with-pending-operations", "end-while-writer-parked", "end-while-open-pending", "end-while-bind-pending", "drop-with-queued-frames", "silent-link-under-keepalive", "ended-by-keepalive-expiry", "fault:cut", "fault:peer-close", "fault:garbage", "fault:drop-mux"],
+        vec!["late-call-after-end", "end-with-pending-operations", "end-while-writer-parked", "end-while-open-pending", "end-while-bind-pending", "drop-with-queued-frames", "silent-link-under-keepalive", "ended-by-keepalive-expiry", "silent-link-around-orderly-end", "fault:cut", "fault:peer-close", "fault:garbage", "fault:drop-mux"],
     )
 }
 use crate::link::{Stage, Wire};
@@ -1635,7 +1647,7 @@ impl Family for C16Family {
             }
         }
         let stuck_sink = r.chance(1, 3);
-        let plan = C16Plan { interval_ms: i_ms, timeout_ms: t_req, delays, tail, link: LinkCfg { window: if stuck_sink { 1 + r.below(2) } else { 1 << 20 }, latency_ms: 0, drop_after_close: r.chance(1, 2), ws_client: r.below(2) as u8, bp_flush: r.chance(1, 2) }, weights: gen_weights(r), stuck_sink, start_delay_ms: if r.chance(1, 4) { *r.pick(&[1u64, i_ms / 2 + 1, 2 * t_req.max(i_ms) + 1]) } else { 0 }, timeout_first: r.chance(1, 4), flood_connects: if r.chance(1, 5) { *r.pick(&[1usize, 5, 6, 9]) } else { 0 }, zero_via_from_secs: r.chance(1, 3), peer_pings_ms: if r.chance(1, 4) { (i_ms / *r.pick(&[1u64, 2, 3])).max(1) } else { 0 } };
+        let plan = C16Plan { interval_ms: i_ms, timeout_ms: t_req, delays, tail, link: LinkCfg { window: if stuck_sink { 1 + r.below(2) } else { 1 << 20 }, latency_ms: 0, drop_after_close: r.chance(1, 2), ws_client: r.below(2) as u8, bp_flush: r.chance(1, 2) }, weights: gen_weights(r), stuck_sink, start_delay_ms: if r.chance(1, 4) { *r.pick(&[1u64, i_ms / 2 + 1, 2 * t_req.max(i_ms) + 1]) } else { 0 }, timeout_first: r.chance(1, 4), replaced_interval_ms: if r.chance(1, 5) { *r.pick(&[100u64, 4000, 30_000, 100_000]) } else { 0 }, flood_connects: if r.chance(1, 5) { *r.pick(&[1usize, 5, 6, 9]) } else { 0 }, zero_via_from_secs: r.chance(1, 3), peer_pings_ms: if r.chance(1, 4) { (i_ms / *r.pick(&[1u64, 2, 3])).max(1) } else { 0 } };
         (serde_json::to_value(plan).expect("plan"), seed)
     }
     fn exec(&self, plan: &Value, sched: &Sched, record: bool) -> Outcome {
@@ -1669,12 +1681,85 @@ pub struct C18Family {
 }
 fn gen_addr(r: &mut Prng) -> Addr {
     match r.below(3) {
-        0 => Addr::V4([1 + r.below(255) as u8, r.next() as u8, r.next() as u8, r.next() as u8]),
-        1 => Addr::V6(r.bytes(16)),
+        0 => {
+            if r.chance(1, 5) {
+                Addr::V4(*r.pick(&[[0u8, 0, 0, 0], [255, 255, 255, 255], [127, 0, 0, 1], [224, 0, 0, 1], [169, 254, 0, 1]]))
+            } else {
+                Addr::V4([1 + r.below(255) as u8, r.next() as u8, r.next() as u8, r.next() as u8])
+            }
+        }
+        1 => {
+            // a third of the IPv6 addresses come from the ranges with a special reading (a uniformly
+            // random address never falls into them): an IPv6 address is 16 opaque octets to SOCKS
+            if r.chance(1, 3) {
+                let v4 = [r.next() as u8, r.next() as u8, r.next() as u8, r.next() as u8];
+                let mut b = [0u8; 16];
+                match r.below(9) {
+                    0 => {
+                        // IPv4-mapped ::ffff:a.b.c.d
+                        b[10] = 0xff;
+                        b[11] = 0xff;
+                        b[12..].copy_from_slice(&v4);
+                    }
+                    1 => b[12..].copy_from_slice(&v4), // IPv4-compatible ::a.b.c.d
+                    2 => {
+                        // IPv4-translated ::ffff:0:a.b.c.d
+                        b[8] = 0xff;
+                        b[9] = 0xff;
+                        b[12..].copy_from_slice(&v4);
+                    }
+                    3 => {
+                        // NAT64 64:ff9b::a.b.c.d
+                        b[0] = 0x00;
+                        b[1] = 0x64;
+                        b[2] = 0xff;
+                        b[3] = 0x9b;
+                        b[12..].copy_from_slice(&v4);
+                    }
+                    4 => b[15] = 1, // loopback
+                    5 => {}         // unspecified
+                    6 => {
+                        // link-local
+                        b[0] = 0xfe;
+                        b[1] = 0x80;
+                        b[12..].copy_from_slice(&v4);
+                    }
+                    7 => {
+                        // multicast
+                        b[0] = 0xff;
+                        b[1] = 0x02;
+                        b[15] = 1;
+                    }
+                    _ => {
+                        // 6to4 2002:a.b.c.d::
+                        b[0] = 0x20;
+                        b[1] = 0x02;
+                        b[2..6].copy_from_slice(&v4);
+                    }
+                }
+                Addr::V6(b.to_vec())
+            } else {
+                Addr::V6(r.bytes(16))
+            }
+        }
         _ => {
             let rnd = 1 + r.below(254);
             let n = *r.pick(&[0usize, 1, 5, 255, rnd]);
             Addr::Domain((0..n).map(|_| b'a' + r.below(26) as u8).collect())
+        }
+    }
+}
+/// 16 address octets for the reply / UDP header builders (the first 4 are used for IPv4)
+fn gen_ip16(r: &mut Prng) -> Vec<u8> {
+    loop {
+        match gen_addr(r) {
+            Addr::V6(b) => return b,
+            Addr::V4(a) if r.chance(1, 2) => {
+                let mut b = r.bytes(16);
+                b[..4].copy_from_slice(&a);
+                return b;
+            }
+            _ => {}
         }
     }
 }
@@ -1769,13 +1854,13 @@ impl Family for C18Family {
         let case = match r.below(12) {
             0..=5 => gen_request(r),
             6 => Case::V5Auth { methods: { let n = *r.pick(&[0usize, 1, 3, 255]); r.bytes(n) }, declared: if r.chance(1, 5) { Some(r.next() as u8) } else { None } },
-            7 => Case::V5Reply { code: r.below(10) as u8, v6: r.chance(1, 2), ip: r.bytes(16), port: r.next() as u16 },
+            7 => Case::V5Reply { code: r.below(10) as u8, v6: r.chance(1, 2), ip: gen_ip16(r), port: r.next() as u16 },
             8 => match r.below(3) {
                 0 => Case::V5ReplyUnspec { code: r.below(10) as u8 },
                 1 => Case::V5AuthReply { method: *r.pick(&[0u8, 1, 2, 255]) },
                 _ => Case::V4Reply { code: 90 + r.below(4) as u8 },
             },
-            9 => Case::UdpBuild { v6: r.chance(1, 2), ip: r.bytes(16), port: r.next() as u16, payload: { let n = *r.pick(&[0usize, 1, 2, 30, 1400]); r.bytes(n) } },
+            9 => Case::UdpBuild { v6: r.chance(1, 2), ip: gen_ip16(r), port: r.next() as u16, payload: { let n = *r.pick(&[0usize, 1, 2, 30, 1400]); r.bytes(n) } },
             _ => {
                 let addr = gen_addr(r);
                 let natural = match addr { Addr::V4(_) => 1, Addr::Domain(_) => 3, Addr::V6(_) => 4 };
